@@ -681,7 +681,7 @@ def evaluate__format_number(self: XPathFunction, context: ta.ContextType = None)
         if any(EXPONENT_PIC.search(s) for s in sub_pictures):
             raise self.error('FODF1310')
 
-    if value is None or math.isnan(value):
+    if value is None or isinstance(value, float) and math.isnan(value):
         return f"{decimal_format['NaN']}"
     elif isinstance(value, float):
         value = decimal.Decimal.from_float(value)
